@@ -109,6 +109,18 @@ structure QfScan where
 @[simp] theorem Flow.bind_cont {ρ σ τ : Type} (s : σ) (f : σ → Flow ρ τ) : (Flow.cont s : Flow ρ σ).bind f = f s := rfl
 @[simp] theorem Flow.bind_panic {ρ σ τ : Type} (f : σ → Flow ρ τ) : (Flow.panic : Flow ρ σ).bind f = .panic := rfl
 
+/-- the value a translated function returned (`none`: it panicked or fell through) -/
+def Flow.ret? {ρ σ : Type} : Flow ρ σ → Option ρ
+  | .ret r => some r
+  | _ => none
+@[simp] theorem Flow.ret?_ret {ρ σ : Type} (r : ρ) : (Flow.ret r : Flow ρ σ).ret? = some r := rfl
+@[simp] theorem Flow.ret?_cont {ρ σ : Type} (s : σ) : (Flow.cont s : Flow ρ σ).ret? = none := rfl
+@[simp] theorem Flow.ret?_panic {ρ σ : Type} : (Flow.panic : Flow ρ σ).ret? = none := rfl
+theorem Flow.ite_bind {ρ σ τ : Type} (c : Prop) [Decidable c] (x y : Flow ρ σ) (f : σ → Flow ρ τ) :
+    (if c then x else y).bind f = if c then x.bind f else y.bind f := by split <;> rfl
+theorem Flow.ite_ret? {ρ σ : Type} (c : Prop) [Decidable c] (x y : Flow ρ σ) :
+    (if c then x else y).ret? = if c then x.ret? else y.ret? := by split <;> rfl
+
 instance : KOps Float where
   pi := Float.ofBits 0x400921FB54442D18
   e := Float.ofBits 0x4005BF0A8B145769
